@@ -925,7 +925,9 @@ def mon_C15(case):
             left = [e for e in reversed(old) if e[0] not in newkeys]
             # a written value: departing entries carry their current value
             exp = left if hascb else []
-            if cbs != exp:
+            if any(999999999999 in e for e in cbs):
+                fails.append(Fail(case, i, "the eviction callback was handed a key or value that had already been dropped (logged as 999999999999): %s" % (cbs,)))
+            elif cbs != exp:
                 fails.append(Fail(case, i, "callback log %s, departing entries (LRU first) %s" % (cbs, exp)))
         prev = st
     return fails
@@ -1560,3 +1562,24 @@ def mon_C10(case):
 
 
 MONITORS.update({"C07": mon_C07, "C08": mon_C08, "C09": mon_C09, "C10": mon_C10})
+
+
+# ---------------------------------------------------------------------------------------------
+# cases whose lists are printed as digests (`#<len>:<hash>`, lists of more than 96 entries): the oracles that replay the
+# policy on the printed lists cannot be evaluated there (the comparison with the model still is); they must not judge
+# from a stale earlier state either, so such a case is left to the correspondence check alone
+# ---------------------------------------------------------------------------------------------
+_DIGEST = re.compile(r"#\d+:[0-9a-f]{16}")
+
+
+def _guard(mon):
+    def wrapped(case):
+        if any(l.out and _DIGEST.search(l.out) for l in case.lines):
+            return []
+        return mon(case)
+    return wrapped
+
+
+for _k in list(MONITORS):
+    if _k not in ("C03", "C05"):
+        MONITORS[_k] = _guard(MONITORS[_k])
